@@ -219,6 +219,13 @@ func Replay(path string, verbose bool) int {
 		fmt.Printf("REPRODUCED-DIFFERENT-CLAUSE property=%s\n", rf.Property)
 		return 1
 	}
+	for _, k := range known {
+		if k.Clause == rf.Clause {
+			// the recorded failure happens again and is listed as an open known finding
+			fmt.Printf("REPRODUCED-KNOWN-FINDING property=%s clause=%s finding=%s\n", rf.Property, rf.Clause, k.Finding)
+			return 0
+		}
+	}
 	fmt.Println("NOT-REPRODUCED")
 	return 0
 }
